@@ -56,7 +56,9 @@ pub unsafe fn unsafe_ops(p: *mut u8, v: &mut Vec<u8>) -> u8 {
 	let g = *v.get_unchecked(0);
 	let w = std::mem::MaybeUninit::<u8>::uninit().assume_init();
 	let c = char::from_u32_unchecked(x);
-	s[0] + m[0] + z + g + w + (c as u8)
+	*p = 7;
+	let q = *p;
+	s[0] + m[0] + z + g + w + q + (c as u8)
 }
 
 pub fn discards(mut w: impl Write) {
